@@ -23,6 +23,12 @@ func init() {
 			sc("shrunk-hot", "size=1000,keys=2,costs=1,alpha=get,prefix=200,shrink=100,heat=15,depth=1,targets=1000/500", 1, 60),
 			sc("grown-cold-protected", "size=1000,keys=2,costs=1,alpha=get,prefix=40,hot=10,grow=100,depth=1,targets=1000/500", 1, 60),
 			sc("nonquiescent-save", "size=4,keys=3,costs=1/2,alpha=set/get/setmap,depth=4,targets=4/3", 2, 60),
+			func() Scenario {
+				// streams of several blocks in the quick tier: the 4 MiB block size (it only sizes buffers) is compiled as 256 bytes
+				x := sc("multi-block-small", "size=100,keys=4,costs=1,alpha=get/set,prefix=60,depth=2,targets=100/50/10", 2, 60)
+				x.Build = Build{Kind: "plain", Consts: map[string]string{"persistence.go:BlockBufferSize": "256"}}
+				return x
+			}(),
 			sc("types-string", "vt=string,size=4,keys=2,costs=1/2,ttls=0/2,depth=3", 1, 60),
 			sc("types-struct", "vt=struct,size=4,keys=2,costs=1/2,ttls=0/2,depth=3", 1, 60),
 			sc("types-bytes", "vt=bytes,size=4,keys=2,costs=1/2,ttls=0/2,depth=3", 1, 60),
